@@ -162,6 +162,14 @@ func (g *PG) boolExpr(d int) string {
 		if bv := g.vars("bool"); len(bv) > 0 && r.Bool() {
 			return Pick(r, bv)
 		}
+		if r.Intn(8) == 0 {
+			for _, t := range []string{"[]int", "map[string]int", "*T"} {
+				if vs := g.vars(t); len(vs) > 0 {
+					g.f("nil-compare")
+					return Pick(r, []string{"%s == nil", "nil == %s", "%s != nil", "nil != %s"})[:0] + fmt.Sprintf(Pick(r, []string{"%s == nil", "nil == %s", "%s != nil", "nil != %s"}), Pick(r, vs))
+				}
+			}
+		}
 		if r.Intn(4) == 0 {
 			g.f("string-compare")
 			return g.strExpr(1) + Pick(r, []string{" < ", " > ", " == ", " != ", " <= ", " >= "}) + g.strExpr(1)
@@ -280,10 +288,17 @@ func (g *PG) stmt(depth int) {
 		case c == 5 && len(g.vars("[]int")) > 0:
 			g.f("slice-store")
 			s := Pick(r, g.vars("[]int"))
-			if r.Bool() {
+			switch r.Intn(4) {
+			case 0:
 				g.w("%s[%d] = %s\n", s, r.Intn(3), g.intExpr(2))
-			} else {
+			case 1:
 				g.w("%s[%d] += %s\n", s, r.Intn(3), g.intExpr(1))
+			case 2: // the index expression has a visible side effect: it is evaluated once
+				g.f("op-assign-call-index")
+				g.w("%s[idx(%d)] %s= %s\n", s, r.Intn(9), Pick(r, []string{"+", "-", "*"}), g.intExpr(1))
+			default:
+				g.f("op-assign-call-index")
+				g.w("%s[idx(%d)]%s\n", s, r.Intn(9), Pick(r, []string{"++", "--"}))
 			}
 		case c == 6 && len(g.vars("map[string]int")) > 0:
 			g.f("map-store")
@@ -417,6 +432,7 @@ func (g *PG) stmt(depth int) {
 			} else {
 				g.w("var %s map[string]int\n", nn)
 			}
+			g.w("switch %s {\ncase nil:\nprintln(\"nil-case\", nil == %s)\ndefault:\nprintln(\"non-nil\")\n}\n", nn, nn)
 			g.w("for %s, %s := range %s {\nprintln(\"never\", %s, %s)\n}\n", kk, vv, nn, kk, vv)
 		case len(g.vars("[]int")) > 0 && r.Chance(0.6):
 			g.f("range-slice")
@@ -504,7 +520,7 @@ func (g *PG) stmt(depth int) {
 // GenProgram returns a program and the set of features it uses.
 func GenProgram(r *RNG, depth int) (GoProg, map[string]bool) {
 	g := &PG{r: r, budget: 45, feat: map[string]bool{}}
-	g.w("const KA = 7\n\nconst KB = KA*2 + 1\n\nvar fuel = 80\n\ntype T struct {\n\tA int\n\tB int\n}\n\nfunc (t *T) Sum(k int) int {\n\treturn t.A + t.B*k\n}\n\nfunc (t *T) Inc() {\n\tt.A++\n\tt.B += 2\n}\n\n")
+	g.w("const KA = 7\n\nconst KB = KA*2 + 1\n\nfunc idx(k int) int {\n\tprintln(\"idx\", k)\n\treturn k %% 3\n}\n\nvar fuel = 80\n\ntype T struct {\n\tA int\n\tB int\n}\n\nfunc (t *T) Sum(k int) int {\n\treturn t.A + t.B*k\n}\n\nfunc (t *T) Inc() {\n\tt.A++\n\tt.B += 2\n}\n\n")
 	g.w("func add(a int, b int) int {\n\treturn a + b\n}\n\nfunc isOdd(a int) bool {\n\treturn a%%2 != 0\n}\n\n")
 	g.w("func pair2(a int, b int) (int, int) {\n\treturn b, a + 1\n}\n\nfunc tri(a int) (int, int, int) {\n\treturn a, a + 1, a + 2\n}\n\n")
 	// results of other types than the parameters, returned as untyped constants: they take the result type
